@@ -65,6 +65,8 @@ fn arg_classes() -> Vec<(&'static str, Cell, bool)> {
         ("\"a\"", Cell::Str(Xstr::from("a")), false),
         ("str77", Cell::Str(Xstr::from(LONG_NONASCII)), false),
         ("str-digits", Cell::Str(Xstr::from("12z.5")), false),
+        ("str-nbsp-junk", Cell::Str(Xstr::from("12\u{a0}g")), false),
+        ("str-wide-blank", Cell::Str(Xstr::from("\u{3000}zz 1\u{2003}_")), false),
         ("bits-empty", Cell::Bitstr(xeh::bitstr::Bitstr::new()), false),
         ("bits-aligned", Cell::Bitstr(xeh::bitstr::Bitstr::from(vec![0x41u8, 0x00, 0xff])), false),
         ("bits-unaligned", unaligned_bits(), false),
@@ -310,8 +312,16 @@ const LITS: [&str; 44] = [
 
 const FRAGS: [&str; 12] = ["\u{a0}", "\u{2003}", "\u{feff}", "\u{201c}q\u{201d}", "\\", "\\(", "\\)", "\u{1F600}", "\u{0}", "\r", "\t", "\u{e9}"];
 
+const STR_ALPHABET: [char; 22] = ['0', '1', '9', 'a', 'f', 'g', 'z', 'x', ' ', '\u{a0}', '\u{3000}', '\u{2003}', '\u{e9}', '|', '.', '-', '+', 'e', '_', '\t', 'b', '\u{1F600}'];
+
 pub fn soup_token(ch: &mut Choices) -> String {
-    match ch.weighted(&[10, 6, 1]) {
+    match ch.weighted(&[10, 6, 1, 1]) {
+        3 => {
+            // a string of digits, blanks (ASCII and not) and junk: what the text-parsing words receive
+            let n = ch.below(7);
+            let s: String = (0..n).map(|_| STR_ALPHABET[ch.below(STR_ALPHABET.len())]).collect();
+            format!("\"{}\"", s)
+        }
         0 => {
             let n = WORDS.with(|w| w.len());
             let i = ch.below(n);
@@ -345,7 +355,11 @@ const SESSION_PROGS: [&str; 12] = [
     "0 var sv 5 ! sv sv drop",
     "3 case 1 of 10 endof 3 of 30 endof drop 0 endcase drop",
 ];
-const SESSION_FAIL: [&str; 8] = ["1 0 /", "drop", "nosuchword", "1 if", "\"s\" 1 +", "I", "#( 1 0 / #)", "[ 1 ] 5 nth"];
+const SESSION_FAIL: [&str; 14] = [
+    "1 0 /", "drop", "nosuchword", "1 if", "\"s\" 1 +", "I", "#( 1 0 / #)", "[ 1 ] 5 nth",
+    // rejected after build-time code has run: its stack is discarded, what it logged is not
+    "#( 1 2 swap nosuchword #)", "#( 1 2 3 rot drop 1 0 / #)", "enum E 1 2 swap nosuchword endenum", "#( [ 1 2 ] foreach I loop nosuchword #)", "#( : mw local a a ; 5 mw 2 0 do I loop nosuchword #)", "1 2 #( 3 4 over nip rot nosuchword #)",
+];
 const SESSION_AFTER: [&str; 10] = ["I", "J", "K", "I J K", "[ 1 ] foreach I loop", "] ", "depth", "close-bitstr", "1 local q", "loop"];
 
 /// a debugger-like session: compile a program, step into it, interrupt it with other submissions, go on
@@ -448,6 +462,10 @@ pub fn case(ch: &mut Choices, ctx: &CaseCtx) -> CaseOut {
     limits(&mut xs);
     let ncalls = 1 + ch.below(6);
     let mut log: Vec<String> = Vec::new();
+    if ch.chance(1, 3) {
+        xs.set_recording_enabled(true);
+        log.push("set_recording_enabled(true)".into());
+    }
     let mut total_tokens = 0usize;
     let mut last_word = String::new();
     for _ in 0..ncalls {
@@ -461,7 +479,13 @@ pub fn case(ch: &mut Choices, ctx: &CaseCtx) -> CaseOut {
                 let toks: Vec<String> = (0..nt).map(|_| soup_token(ch)).collect();
                 total_tokens += nt;
                 last_word = toks.last().cloned().unwrap_or_default();
-                let src = toks.join(" ");
+                // (sometimes the tokens run at build time, in a block or an enum body that is then rejected)
+                let src = match ch.weighted(&[12, 2, 1, 1]) {
+                    0 => toks.join(" "),
+                    1 => format!("#( {} nosuchword #)", toks.join(" ")),
+                    2 => format!("#( {} #)", toks.join(" ")),
+                    _ => format!("enum E {} nosuchword endenum", toks.join(" ")),
+                };
                 log.push(format!("{} {:?}", if call == 0 { "eval" } else { "compile" }, src));
                 if std::env::var("VERIF_TRACE").is_ok() {
                     eprintln!("TRACE {}", log.last().unwrap());
